@@ -94,6 +94,8 @@ class Lower:
                     return self.e(('bin', '!=', x[2][0], ('num', 0)))
         if self.acc and k == 'bin' and x[1] == '!=' and x[3] == ('num', 0) and x[2][0] == 'member' and x[2][1] == ('id', 'partial') and x[2][2] in FIELDS:
             return '(APartialNonZero %s)' % FIELDS[x[2][2]]
+        if self.acc and k == 'cond' and x[2] == ('num', 1) and x[3] == ('num', 0) and x[1][0] == 'bin' and x[1][1] == '!=':
+            return self.e(x[1])            # b ? 1 : 0  added to a counter is  b  added to it
         self.bad('expression not in the subset', x)
 
     def lhs(self, x):
